@@ -112,6 +112,13 @@ where
     m_sw.swap(0, 2);
     cases.push(("messages-swapped".into(), m_sw, Some(HEADER.to_vec()), pkb.to_vec(), sb.to_vec()));
     cases.push(("no-messages".into(), vec![], Some(HEADER.to_vec()), pkb.to_vec(), sb.to_vec()));
+    // octet-level edits that a text canonicalisation would hide: leading / trailing whitespace, zero octets, letter case
+    for (wn, edit) in [("leading-space-added", b" message-1".to_vec()), ("leading-newline-added", b"\nmessage-1".to_vec()), ("trailing-space-added", b"message-1 ".to_vec()),
+                       ("trailing-zero-added", b"message-1\0".to_vec()), ("leading-zero-added", b"\0message-1".to_vec()), ("case-changed", b"Message-1".to_vec())] {
+        let mut mw = m.clone();
+        mw[1] = edit;
+        cases.push((format!("message-{wn}"), mw, Some(HEADER.to_vec()), pkb.to_vec(), sb.to_vec()));
+    }
     cases.push(("header-changed".into(), m.clone(), Some(b"other header".to_vec()), pkb.to_vec(), sb.to_vec()));
     cases.push(("header-absent".into(), m.clone(), None, pkb.to_vec(), sb.to_vec()));
     cases.push(("header-empty".into(), m.clone(), Some(vec![]), pkb.to_vec(), sb.to_vec()));
@@ -124,6 +131,17 @@ where
         s2[i / 8] ^= 1 << (i % 8);
         cases.push((format!("sig-bitflip-{i}"), m.clone(), Some(HEADER.to_vec()), pkb.to_vec(), s2));
         i += step;
+    }
+    {
+        let mut mp = m.clone();
+        mp[1] = b" \t message-1".to_vec();
+        let sp = Sig::<CS>::sign(Some(&mp), kp.private_key(), kp.public_key(), Some(HEADER)).unwrap().to_bytes();
+        let mut stripped = mp.clone();
+        stripped[1] = b"message-1".to_vec();
+        cases.push(("leading-whitespace-stripped".into(), stripped, Some(HEADER.to_vec()), pkb.to_vec(), sp.to_vec()));
+        let mut one = mp.clone();
+        one[1] = b"\t message-1".to_vec();
+        cases.push(("one-leading-whitespace-octet-removed".into(), one, Some(HEADER.to_vec()), pkb.to_vec(), sp.to_vec()));
     }
     for (id, mm, hh, pkk, ss) in cases {
         let outcome = guard(move || {
@@ -288,6 +306,20 @@ where
         c.1[i / 8] ^= 1 << (i % 8);
         cases.push(c);
         i += step;
+    }
+    // a proof made WITHOUT presentation header / header, presented with one (api id, header, arbitrary) and the converse
+    {
+        let p_noph = Pok::<CS>::proof_gen(kp.public_key(), &sig.to_bytes(), Some(HEADER), None, Some(&m), Some(&d)).unwrap().to_bytes();
+        for (nm, phx) in [("api-id", CS::API_ID.to_vec()), ("header", HEADER.to_vec()), ("x", b"x".to_vec())] {
+            cases.push((format!("made-without-ph-presented-with-ph-{nm}"), p_noph.clone(), pkb.clone(), Some(dm.clone()), Some(d.clone()), Some(HEADER.to_vec()), Some(phx)));
+        }
+        let p_api = Pok::<CS>::proof_gen(kp.public_key(), &sig.to_bytes(), Some(HEADER), Some(CS::API_ID), Some(&m), Some(&d)).unwrap().to_bytes();
+        cases.push(("made-with-ph-api-id-presented-without-ph".into(), p_api.clone(), pkb.clone(), Some(dm.clone()), Some(d.clone()), Some(HEADER.to_vec()), None));
+        cases.push(("made-with-ph-api-id-presented-with-empty-ph".into(), p_api, pkb.clone(), Some(dm.clone()), Some(d.clone()), Some(HEADER.to_vec()), Some(vec![])));
+        let sig_nh = Sig::<CS>::sign(Some(&m), kp.private_key(), kp.public_key(), None).unwrap();
+        let p_nh = Pok::<CS>::proof_gen(kp.public_key(), &sig_nh.to_bytes(), None, Some(PH), Some(&m), Some(&d)).unwrap().to_bytes();
+        cases.push(("made-without-header-presented-with-header-api-id".into(), p_nh.clone(), pkb.clone(), Some(dm.clone()), Some(d.clone()), Some(CS::API_ID.to_vec()), Some(PH.to_vec())));
+        cases.push(("made-without-header-presented-with-header-ph".into(), p_nh, pkb.clone(), Some(dm.clone()), Some(d.clone()), Some(PH.to_vec()), Some(PH.to_vec())));
     }
     // the honest call itself must verify (sanity of the family)
     cases.push(("honest".to_string(), pb.clone(), pkb.clone(), Some(dm.clone()), Some(d.clone()), Some(HEADER.to_vec()), Some(PH.to_vec())));
@@ -488,6 +520,28 @@ where
         });
         push(out, format!("{name}-blind_proof_verify-{id}"), "blind_proof_verify(edited)", vec![id.clone()], outcome, expect);
     }
+    // optional arguments OMITTED (None) instead of edited: a proof that discloses every signer message, verified without L,
+    // without ph, without header (absent means 0 / empty, which is not what the proof was made for)
+    {
+        let all: Vec<usize> = vec![0, 1, 2];
+        let pr = Pok::<CS>::blind_proof_gen(kp.public_key(), &bs3.to_bytes(), Some(HEADER), Some(PH), Some(&m3), Some(&cm), Some(&all), Some(&dj), Some(&blind)).unwrap();
+        let prb = pr.to_bytes();
+        for (id, l, hh, phh, expect) in [
+            ("honest", Some(3usize), Some(HEADER), Some(PH), "expect-ok"),
+            ("L-omitted", None, Some(HEADER), Some(PH), "expect-err"),
+            ("ph-omitted", Some(3), Some(HEADER), None, "expect-err"),
+            ("header-omitted", Some(3), None, Some(PH), "expect-err"),
+            ("L-zero", Some(0), Some(HEADER), Some(PH), "expect-err"),
+        ] {
+            let (pkb2, prb2, m32, dcm2, all2, dj2) = (pkb.clone(), prb.clone(), m3.clone(), dcm.clone(), all.clone(), dj.clone());
+            let outcome = guard(move || {
+                let pk = BBSplusPublicKey::from_bytes(&pkb2).unwrap();
+                let p = match Pok::<CS>::from_bytes(&prb2) { Ok(p) => p, Err(e) => return format!("err:decode:{e:?}") };
+                res(p.blind_proof_verify(&pk, hh, phh, l, Some(&m32), Some(&dcm2), Some(&all2), Some(&dj2)))
+            });
+            push(out, format!("{name}-blind_proof_verify-all-signer-messages-disclosed-{id}"), "blind_proof_verify(optional argument omitted)", vec![id.to_string()], outcome, expect);
+        }
+    }
 }
 
 pub fn update_history<CS: BbsCiphersuite>(name: &str, out: &mut Vec<Value>, thorough: bool)
@@ -543,6 +597,7 @@ where
         ("from-empty", vec![], b"attribute".to_vec()),
         ("trailing-zero", b"ab".to_vec(), b"ab\0".to_vec()),
         ("same-length", b"aaaa".to_vec(), b"aaab".to_vec()),
+        ("same-value", b"unchanged".to_vec(), b"unchanged".to_vec()),
         ("long", vec![7u8; 100], vec![7u8; 1000]),
     ];
     for (pn, oldv, newv) in pairs {
@@ -559,7 +614,7 @@ where
                     if let Err(e) = s2.verify(&pk, Some(&want), Some(HEADER)) {
                         return format!("err:verify-current:{e:?}");
                     }
-                    if s2.verify(&pk, Some(&cur2), Some(HEADER)).is_ok() {
+                    if oldv2 != newv2 && s2.verify(&pk, Some(&cur2), Some(HEADER)).is_ok() {
                         return "err:verifies-for-earlier-vector".to_string();
                     }
                     "ok:accepted".to_string()
@@ -700,6 +755,13 @@ where
     ids.push(("long-300-B", Some(long(300, b"_TENANT_B_"))));
     ids.push(("long-1000-A", Some(long(1000, b"A"))));
     ids.push(("long-1000-B", Some(long(1000, b"B"))));
+    // api ids that are not valid UTF-8 (octet strings, not text)
+    ids.push(("octets-ff", Some(vec![0xff])));
+    ids.push(("octets-fe", Some(vec![0xfe])));
+    ids.push(("octets-c3", Some(vec![0xc3])));
+    ids.push(("octets-efbfbd", Some(vec![0xef, 0xbf, 0xbd])));
+    ids.push(("API_ID-80", Some([CS::API_ID, &[0x80u8][..]].concat())));
+    ids.push(("API_ID-81", Some([CS::API_ID, &[0x81u8][..]].concat())));
     let mut sets: Vec<(String, Vec<Vec<u8>>)> = vec![];
     for (idn, id) in ids.iter() {
         let full = Generators::create::<CS>(n, id.as_deref());
